@@ -295,15 +295,107 @@ pub fn run(tier: Tier) -> Report {
             out
         })
         .collect();
+    // missing-token syntax faults: deleting a token the grammar requires (closing bracket,
+    // `:` / `of` / `=` of a declaration, `;` of a declaration, assignment or call) or confusing
+    // `:=` with `=` must produce a syntax diagnostic inside the enclosing declaration
+    let syn_items: Vec<&Item> = items.iter().filter(|i| i.family == "scenario-permutations" || i.family == "stmt@contexts" || i.family == "types").step_by(tier.pick(5, 1)).collect();
+    let syn_evals = AtomicU64::new(0);
+    let syn_fails: Vec<Failure> = syn_items
+        .par_iter()
+        .flat_map_iter(|it| {
+            let pr = print_program(&it.program);
+            let words: Vec<String> = pr.toks.iter().map(|t| t.text.clone()).collect();
+            let mut out = vec![];
+            for k in 0..words.len() {
+                let w = words[k].as_str();
+                let required = match w {
+                    ")" | "]" | "}" | "of" => true,
+                    ":" => true,
+                    "=" => k >= 2 && words[k - 2] == "type",
+                    // (a following `;` would take over the role of the deleted one)
+                    ";" if words.get(k + 1).map(|n| n == ";").unwrap_or(false) => false,
+                    ";" => k >= 1 && !matches!(words[k - 1].as_str(), "{" | "}" | ";" | ")") || (k >= 1 && words[k - 1] == ")" && {
+                        // `)` `;` ends a call statement (not an if/while header)
+                        let mut depth = 0i32;
+                        let mut j = k - 1;
+                        loop {
+                            match words[j].as_str() {
+                                ")" => depth += 1,
+                                "(" => {
+                                    depth -= 1;
+                                    if depth == 0 {
+                                        break;
+                                    }
+                                }
+                                _ => {}
+                            }
+                            if j == 0 {
+                                break;
+                            }
+                            j -= 1;
+                        }
+                        j >= 1 && !matches!(words[j - 1].as_str(), "if" | "while")
+                    }),
+                    _ => false,
+                };
+                let mut variants: Vec<(String, Vec<String>)> = vec![];
+                if required {
+                    let mut v = words.clone();
+                    v.remove(k);
+                    variants.push((format!("missing-{}", w), v));
+                }
+                if w == ":=" {
+                    let mut v = words.clone();
+                    v[k] = "=".into();
+                    variants.push(("confused-assign-with-eq".into(), v));
+                }
+                if w == "=" && k >= 2 && words[k - 2] == "type" {
+                    let mut v = words.clone();
+                    v[k] = ":=".into();
+                    variants.push(("confused-eq-with-assign".into(), v));
+                }
+                for (what, v) in variants {
+                    syn_evals.fetch_add(1, Ordering::Relaxed);
+                    let text = v.join(" ");
+                    let t2 = text.clone();
+                    let errs = match guarded(move || AnalyzedSource::new(t2).errors()) {
+                        Ok(e) => e,
+                        Err(p) => {
+                            out.push(Failure { key: "diag:syntax:panic".into(), case: json!({"text": text}), detail: p });
+                            continue;
+                        }
+                    };
+                    let syn: Vec<_> = errs.iter().filter(|e| rule_of(&e.1).is_none()).collect();
+                    // byte span of the enclosing declaration in the damaged text
+                    let d = pr.toks[k].decl;
+                    let (a, b) = pr.decl_spans[d];
+                    let delta: isize = v.len() as isize - words.len() as isize;
+                    let lo: usize = v[..a].iter().map(|w| w.len() + 1).sum();
+                    let hi_tok = (b as isize + delta) as usize;
+                    let hi: usize = if hi_tok >= v.len() { text.len() } else { v[..hi_tok].iter().map(|w| w.len() + 1).sum() };
+                    if syn.is_empty() {
+                        if out.len() < 6 {
+                            out.push(Failure { key: format!("diag:syntax:{}:no-diagnostic", what), case: json!({"text": text, "family": it.family}), detail: format!("token #{} {:?} removed/confused, diagnostics: {:?}", k, w, errs) });
+                        }
+                    } else if !syn.iter().all(|e| e.0.start + 1 >= lo && e.0.end <= hi) && out.len() < 6 {
+                        out.push(Failure { key: format!("diag:syntax:{}:outside-declaration", what), case: json!({"text": text, "family": it.family}), detail: format!("declaration bytes {}..{}, syntax diagnostics {:?}", lo, hi, syn) });
+                    }
+                }
+            }
+            out
+        })
+        .collect();
+    let mut fails = fails;
+    fails.extend(syn_fails);
     let st = stats.lock().unwrap().clone();
     let missing_rules: Vec<String> = refsem::ALL_RULES.iter().map(|r| format!("{:?}", r)).filter(|r| !st.single_fault.contains_key(r)).collect();
     rep.states = items.len() as u64;
-    rep.transitions = evals.load(Ordering::Relaxed);
+    rep.transitions = evals.load(Ordering::Relaxed) + syn_evals.load(Ordering::Relaxed);
     rep.evaluations = rep.transitions;
     rep.traces_validated = rep.transitions;
     rep.distinct_nontrivial = st.well_typed + st.single_fault.values().sum::<u64>();
     rep.rule = "programs: the well-typed family, every member of the expression/statement families (typed or not), all statements up to the token bound over fault pools (undeclared names, a type and a procedure used as variables, variables called, wrong argument counts), and declaration-level faults at two placements; each is classified by the reference checker: no violation -> no diagnostic at all; exactly one violation -> >=1 diagnostic of that rule inside the construct's byte span and none of any other rule; more -> skipped and counted; x layouts/comment placements; published diagnostics equal errors() converted by the LSP text model; distinct_nontrivial = well-typed + single-fault programs".into();
-    rep.bounds = json!({"programs": items.len(), "well_typed": st.well_typed, "single_fault_by_rule": st.single_fault, "skipped_multi_fault": st.skipped_multi_fault, "rules_without_single_fault_program": missing_rules});
+    rep.bounds = json!({"programs": items.len(), "well_typed": st.well_typed, "single_fault_by_rule": st.single_fault, "skipped_multi_fault": st.skipped_multi_fault, "syntax_fault_cases": syn_evals.load(Ordering::Relaxed), "rules_without_single_fault_program": missing_rules});
     rep.sample(json!({"text": "proc main() { var i: int; i := zz; }", "expected": "UndefinedVariable on zz only"}));
     rep.assumptions = vec!["reference checker refsem.rs (independent implementation of the SPL declaration/type rules, name equivalence by type-expression identity)".into(), "unary minus on a non-integer operand is outside both sub-families (the implementation has no message kind for it)".into()];
     rep.failures = fails;
